@@ -110,6 +110,8 @@ def decorate(beh, rng, bid, nodes=('a',)):
             fails_in_row = 0
         if name == 'CommitOp':
             a.update(meta.pick())
+        if name == 'Block':
+            a['how'] = rng.choice(['readonly', 'nack'])
         if name == 'TakeOver':
             a = {'a': 'TakeOver', 'n': a['n'], 'old': a['old']}
         if name == 'Crash' and steps and steps[-1]['a'] == 'Start' and steps[-1].get('n') == a.get('n'):
